@@ -3,13 +3,14 @@ from .. import cases, monitors, oracles
 from . import _align_common as ac
 
 TITLE = "Soft alignment is a minimum-disorder cover"
-DECIDING = ["M-COVER", "M-OPT"]
+DECIDING = ["M-COVER", "M-OPT", "M-SESSION"]
 LEVEL = "exploration"
 RULE = ("seeded random continua up to 2x9, 3x9, 4x5, 5x3 units x pooled dissimilarities x both MIP back-ends; the "
         "returned soft alignment is checked to be a well-formed cover (M-COVER) and its disorder compared with the "
         "unpruned exact minimum cover (bitmask DP <= 14 units, HiGHS MILP with A x >= 1) and with the best partition "
         "of the same continuum; thorough tier adds the complete '2 annotators x <= 2 units' and '3 annotators x <= 2 "
-        "units' grids; non-trivial = >= 2 units and >= 2 non-empty annotators; distinct by SHA-1 of the case")
+        "units' grids; 10 % of the random cases are editing sessions (compute, edit the same continuum object, compute again); "
+        "non-trivial = >= 2 units and >= 2 non-empty annotators; distinct by SHA-1 of the case")
 ASSUMPTIONS = [
     "pair costs come from the compiled d_mat on arrays built by the harness; enumeration, pair mean and optimisation "
     "are independent of the library",
@@ -23,10 +24,28 @@ def plan(tier, seed):
 
 
 def check_case(ctx, case):
+    if "session" in case:
+        # one continuum object and one dissimilarity object: compute, edit, compute again (stale caches show here)
+        _, pool = ac.setup(ctx)
+        continuum = cases.build_continuum(case["continuum"])
+        for op in [None] + case["session"]:
+            if op is not None:
+                ac.apply_edit(continuum, op)
+            if not continuum or len(continuum.annotators) < 2:
+                continue
+            ctx.count("M-SESSION")
+            step = {"continuum": cases.spec_of(continuum), "dissim": case["dissim"], "backend": case["backend"], "want": "auto"}
+            _check(ctx, step, continuum)
+        return
+    _check(ctx, case, None)
+
+
+def _check(ctx, case, continuum):
     spy, pool = ac.setup(ctx)
     cspec, dspec = case["continuum"], case["dissim"]
     dissim = pool.get(dspec)
-    continuum = cases.build_continuum(cspec)
+    if continuum is None:
+        continuum = cases.build_continuum(cspec)
     try:
         soft, solvers = ac.call_alignment(continuum, dissim, case["backend"], "soft", spy)
         best, _ = ac.call_alignment(continuum, dissim, case["backend"], "best", spy)
@@ -77,6 +96,9 @@ def run(ctx):
         if ctx.out_of_time():
             break
         case = ac.gen_oracle_case(ctx, dspecs)
+        if ctx.rng.random() < 0.1 and cases.spec_num_units(case["continuum"]) <= 12:
+            labels = cases.dissim_labels(case["dissim"]) or cases.LABELS_SMALL
+            case["session"] = ac.gen_edit_ops(ctx.rng, case["continuum"], labels, ctx.rng.randint(2, 4))
         cs = case["continuum"]
         nonempty = sum(1 for us in cs["ann"].values() if us)
         ctx.begin_case(case, nontrivial=cases.spec_num_units(cs) >= 2 and nonempty >= 2)
